@@ -41,17 +41,32 @@ def dupNestedSyms (ps : List Part) : Bool :=
   let syms := ps.filterMap Part.nestedSym
   syms.any (fun s => (syms.filter (· == s)).length > 1)
 
+def flatGroupsOnly : GTree → Bool
+  | .grp s => flatParts s.parts
+  | .op _ l r => flatGroupsOnly l && flatGroupsOnly r
+
+def pairCount : List Part → Nat
+  | [] => 0
+  | .pairs _ :: ps => 1 + pairCount ps
+  | _ :: ps => pairCount ps
+
 mutual
-/-- inside a nested statement: components, filler and further nested statements, no
-    nested-statement combination; two nested statements of one symbol only when operator-free -/
+/-- inside a nested statement: components, filler, further nested statements and at most one
+    component-pair combination with flat groups; no nested-statement combination; two nested
+    statements of one symbol only when operator-free -/
 def supNestedParts : List Part → Bool
   | [] => true
   | .ann .. :: ps => supNestedParts ps
   | .filler _ :: ps => supNestedParts ps
   | .nested _ s :: ps => supNestedS s && supNestedParts ps
+  | .pairs t :: ps => flatGroupsOnly t && supNestedParts ps
   | _ :: _ => false
 def supNestedS : Stmt → Bool
-  | .mk ps => supNestedParts ps
+  | .mk ps =>
+    -- with a pair combination inside the nested statement, the components written outside the
+    -- pair braces must be single values (a component combination before the braces makes the
+    -- nested parse fail with INVALID_COMBINATION_IN_INPUT)
+    supNestedParts ps && pairCount ps ≤ 1 && (pairCount ps = 0 || !(partsHaveOp ps))
 end
 
 def supNestedStmt (s : Stmt) : Bool :=
